@@ -264,8 +264,10 @@ pub fn run(ctx: &mut Ctx) {
                 Ok(Ok(o)) => o,
                 _ => continue,
             };
-            // ops: 0..n = extend(ids[i]); n = remove_obsolete; n+1 = remove_modifier; n+2 = replace_obsolete
-            let nops = n + 3;
+            // ops: 0..n = extend(ids[i]); n = remove_obsolete; n+1 = remove_modifier; n+2 = replace_obsolete;
+            // n+3 = extend(all terms, descending); n+4 = extend([t2, t2, t0]) (a repeat inside one call, one of them
+            // possibly a member); n+5 = extend(the set's own members, collected first)
+            let nops = n + 6;
             let starts: Vec<Vec<u32>> = vec![vec![], vec![ids[3]], ids.clone()];
             let mut seqs: Vec<Vec<usize>> = vec![vec![]];
             let mut frontier: Vec<Vec<usize>> = vec![vec![]];
@@ -303,9 +305,18 @@ pub fn run(ctx: &mut Ctx) {
                             } else if *op == n + 1 {
                                 set.remove_modifier();
                                 model.retain(|t| !r.is_modifier(*t, Mode::Defaults));
-                            } else {
+                            } else if *op == n + 2 {
                                 set.replace_obsolete();
                                 model = model.iter().map(|t| r.terms[t].replacement.unwrap_or(*t)).collect();
+                            } else if *op == n + 3 {
+                                set.extend(ids.iter().rev().map(|i| ont.hpo(*i).unwrap()));
+                                model.extend(ids.iter().copied());
+                            } else if *op == n + 4 {
+                                set.extend([ids[2], ids[2], ids[0]].iter().map(|i| ont.hpo(*i).unwrap()));
+                                model.extend([ids[2], ids[0]]);
+                            } else {
+                                let own: Vec<u32> = ids_of(&set);
+                                set.extend(own.iter().map(|i| ont.hpo(*i).unwrap()));
                             }
                             if let Some((site, sig, det)) = check_set(&ont, &r, &set, &snapshot(&model)) {
                                 return Some((site, format!("[live set after a sequence of operations] {sig}"), format!("start {start:?}, operations {:?} (step {step}): {det}", sq)));
@@ -315,7 +326,7 @@ pub fn run(ctx: &mut Ctx) {
                     });
                     match res {
                         Ok(None) => {}
-                        Ok(Some((site, sig, det))) => ctx.violation(&site, &sig, json!({"family": what, "facts": f.to_json(), "operations_legend": format!("0..{n} = extend(term i of {ids:?}); {n} = remove_obsolete; {} = remove_modifier; {} = replace_obsolete", n + 1, n + 2), "difference": det})),
+                        Ok(Some((site, sig, det))) => ctx.violation(&site, &sig, json!({"family": what, "facts": f.to_json(), "operations_legend": format!("0..{n} = extend(term i of {ids:?}); {n} = remove_obsolete; {} = remove_modifier; {} = replace_obsolete; {} = extend(all terms descending); {} = extend([t2, t2, t0]); {} = extend(own members)", n + 1, n + 2, n + 3, n + 4, n + 5), "difference": det})),
                         Err(p) => ctx.violation("HpoSet", "[live set] panics", json!({"family": what, "facts": f.to_json(), "start": start, "operations": sq, "observed": p})),
                     }
                 }
@@ -327,7 +338,7 @@ pub fn run(ctx: &mut Ctx) {
     // ---- structured large graphs: sets with more than 30 members / members with more than 30 ancestors
     {
         let family = crate::props::common::large_family();
-        ctx.space("large-structured/structured-subsets", &format!("{} large shapes (loaded with defaults; an obsolete+replaced last term; records on several terms) x structured subsets: every prefix, every suffix, every k-th term (k=2,3,7), all pairs (i, last), the full set", family.len()));
+        ctx.space("large-structured/structured-subsets", &format!("{} large shapes (loaded with defaults; every other shape below the modifier root HP:119 instead of HP:118; an obsolete+replaced last term; records on several terms) x structured subsets: every prefix, every suffix, every k-th term (k=2,3,7), all pairs (i, last), the full set", family.len()));
         for (base, what) in &family {
             if !ctx.take() {
                 continue;
@@ -335,6 +346,27 @@ pub fn run(ctx: &mut Ctx) {
             ctx.state();
             ctx.nontrivial();
             let mut f = base.clone();
+            // every other shape hangs below a MODIFIER root instead of HP:118: node 1 becomes HP:119 (a child of
+            // HP:1 other than 118) and a childless HP:118 is added - so that positive modifier classification is
+            // exercised on terms with > 30 / > 255 ancestors as well
+            let below_modifier = ctx.spaces.last().map(|s| s.1.cases % 2 == 0).unwrap_or(false);
+            if below_modifier {
+                for t in f.terms.iter_mut() {
+                    if t.id == 118 {
+                        t.id = 119;
+                    }
+                }
+                for e in f.edges.iter_mut() {
+                    if e.0 == 118 {
+                        e.0 = 119;
+                    }
+                    if e.1 == 118 {
+                        e.1 = 119;
+                    }
+                }
+                f.terms.insert(1, Facts::term(118, "Phenotypic abnormality"));
+                f.edges.push((118, 1));
+            }
             let ids: Vec<u32> = f.terms.iter().map(|t| t.id).collect();
             let n = ids.len();
             f.terms[n - 1].obsolete = true;
@@ -381,13 +413,71 @@ pub fn run(ctx: &mut Ctx) {
                     Err(p) => ctx.violation("HpoSet", "[large shape] panics", json!({"shape": what, "set": x, "observed": p})),
                 }
             }
-            ctx.sample(|| json!({"shape": what, "n_terms": n, "subsets": subsets.len()}));
+            ctx.sample(|| json!({"shape": what, "n_terms": n, "subsets": subsets.len(), "below_a_modifier_root": below_modifier}));
         }
     }
 
+    // ---- unions of many records: 60 genes, 25 OMIM and 25 ORPHA diseases spread over a chain of 8 terms and two
+    // side terms (record j on term j mod 10), every subset of the 10 terms
+    {
+        ctx.space("many-records/all-subsets", "HP:1, HP:118, a chain of 8 terms below HP:118 and two further children of HP:118; 60 genes / 25 OMIM / 25 ORPHA records, record j on term (j mod 10) and every 7th also on term (3j mod 10); all 2^10 subsets of the ten terms; decoder and Builder");
+        if ctx.take() {
+            ctx.state();
+            ctx.nontrivial();
+            let mut f = Facts::default();
+            f.version = (2024, 2, 29);
+            f.terms = vec![Facts::term(1, "All"), Facts::term(118, "Phenotypic abnormality")];
+            f.edges = vec![(118, 1)];
+            let ten: Vec<u32> = vec![210, 220, 230, 240, 250, 260, 270, 280, 300, 310];
+            for (k, t) in ten.iter().enumerate() {
+                f.terms.push(Facts::term(*t, &format!("M{k}")));
+                f.edges.push((*t, if k == 0 || k >= 8 { 118 } else { ten[k - 1] }));
+            }
+            for (kind, count) in [(Kind::Gene, 60u32), (Kind::Omim, 25), (Kind::Orpha, 25)] {
+                for j in 0..count {
+                    f.anns.push(Facts::ann(kind, 1000 + j, &format!("R{j}"), Some(ten[(j % 10) as usize])));
+                    if j % 7 == 0 {
+                        f.anns.push(Facts::ann(kind, 1000 + j, &format!("R{j}"), Some(ten[((3 * j) % 10) as usize])));
+                    }
+                }
+            }
+            let r = RefOnt::derive(&f);
+            ctx.transitions(2 * f.n_steps());
+            let mut onts: Vec<(Ontology, &str)> = vec![];
+            if let Ok(Ok(o)) = drive::from_bytes(&encode::encode(&f, &EncOpts::v(3))) {
+                onts.push((o, "from_bytes"));
+            }
+            if let Ok(o) = drive::build(&f, Mode::Defaults) {
+                onts.push((o, "builder"));
+            }
+            if onts.len() != 2 {
+                ctx.violation("Ontology::from_bytes", "construction fails on valid facts", json!({"layout": "many records"}));
+            }
+            for (ont, path) in &onts {
+                for mask in 0..(1u32 << 10) {
+                    let x: Vec<u32> = crate::space::bits(mask, 10).iter().map(|i| ten[*i]).collect();
+                    ctx.exec();
+                    ctx.validated();
+                    ctx.transitions(16);
+                    match guard(|| check_subset(ont, &r, &x)) {
+                        Ok(None) => {}
+                        Ok(Some((site, sig, det))) => {
+                            ctx.violation(&site, &format!("[many records] {sig}"), json!({"constructor": path, "set": x, "difference": det}));
+                            break;
+                        }
+                        Err(p) => {
+                            ctx.violation("HpoSet", "[many records] panics", json!({"set": x, "observed": p}));
+                            break;
+                        }
+                    }
+                }
+            }
+            ctx.sample(|| json!({"records": [60, 25, 25], "subsets": 1024}));
+        }
+    }
     // ---- custom modifier roots and categories (Ontology::modifier_mut / categories_mut are public)
     let small = family_e(1, 2, &[200, 7]);
-    ctx.space("custom-modifier-roots-and-categories", &format!("{} ontologies (k <= 2, no flags) built with build_minimal; every single term and every pair of terms installed as custom modifier roots through modifier_mut(), categories set to an unrelated pair through categories_mut(); every subset as HpoSet: without_modifier / remove_modifier / categories", small.iter().filter(|(f, _)| f.terms.iter().all(|t| !t.obsolete && t.replacement.is_none())).count()));
+    ctx.space("custom-modifier-roots-and-categories", &format!("{} ontologies (k <= 2, no flags) built ONCE with build_minimal; every single term and every pair of terms in turn installed as custom modifier roots through modifier_mut() (lists re-edited after they were queried), categories set to one of two unrelated pairs through categories_mut(); every subset as HpoSet: without_modifier / remove_modifier / categories", small.iter().filter(|(f, _)| f.terms.iter().all(|t| !t.obsolete && t.replacement.is_none())).count()));
     for (f, what) in &small {
         if f.terms.iter().any(|t| t.obsolete || t.replacement.is_some()) {
             continue;
@@ -406,10 +496,14 @@ pub fn run(ctx: &mut Ctx) {
                 root_sets.push(vec![ids[a], ids[b]]);
             }
         }
-        for roots in &root_sets {
-            let cats: Vec<u32> = vec![ids[n - 1], ids[1]];
+        // ONE ontology per fact set: the lists are edited again after they have been queried (a classification
+        // remembered per term would go stale); the category pair alternates as well
+        let Ok(mut ont) = drive::build(f, Mode::Minimal) else { continue };
+        for (ri, roots) in root_sets.iter().enumerate() {
+            let cats: Vec<u32> = if ri % 2 == 0 { vec![ids[n - 1], ids[1]] } else { vec![ids[0], ids[n - 2]] };
             ctx.transitions(f.n_steps() + 2);
-            let Ok(mut ont) = drive::build(f, Mode::Minimal) else { continue };
+            *ont.modifier_mut() = HpoGroup::new();
+            *ont.categories_mut() = HpoGroup::new();
             for x in roots {
                 ont.modifier_mut().insert(*x);
             }
